@@ -10,6 +10,10 @@
 (*   YAML .nan / .inf) makes ValidateRequest / ValidateResponse return an error whose Error() panics                       *)
 (*   ("json: unsupported value: NaN"), and with it RequestError.Error(), MultiError.Error(), DefaultErrorEncoder.           *)
 (*   Trigger: traffic carrying a NaN / infinity token; observation: only the reading of the returned error panics.         *)
+(* F-C10-11: visitXOFOperations deep-copies the value before trying each oneOf / anyOf member (mohae/deepcopy); a YAML body  *)
+(*   with a null mapping key ({~: x}) decodes to a map[any]any with a nil key, which deepcopy cannot copy: reflect panic    *)
+(*   "SetMapIndex on zero Value" out of ValidateRequest / ValidateResponse.  Trigger: a YAML null mapping key meeting a     *)
+(*   schema with oneOf / anyOf at or above it; observation: the validating calls panic.                                       *)
 EXTENDS Sequences, FiniteSets
 SeqSet(q) == {q[i] : i \in DOMAIN q}
 NanTraffic(c) ==
@@ -18,7 +22,13 @@ NanTraffic(c) ==
    THEN c.value.n \in {"nan", "infinity", "yaml_nan"} \/ (SeqSet(c.murl) \cup SeqSet(c.mbody) \cup SeqSet(c.mrbody)) \cap named # {}
    ELSE SeqSet(c.muts) \cap named # {}
 ErrorReaders == {"error_report", "middleware_lenient", "error_encoder"}
+XofWraps == {"oneof", "anyof", "oneof_discriminator", "anyof_array_or_leaf"}
+NullKeyMeetsXof(c) == "kind" \in DOMAIN c /\ c.kind = "shape" /\ c.value.n = "yaml_key_null" /\ c.wrap \in XofWraps
 Class(line, bad) ==
+   IF bad = {"returns_normally"} /\ NullKeyMeetsXof(line.c)
+      /\ \A s \in DOMAIN line.obs : line.obs[s] \notin {"hang", "crash"}
+   THEN "deepcopy_panics_on_null_yaml_key"
+   ELSE
    IF bad = {"returns_normally"} /\ NanTraffic(line.c)
       /\ \A s \in DOMAIN line.obs : line.obs[s] \in {"panic", "hang", "crash"} => (s \in ErrorReaders /\ line.obs[s] = "panic")
    THEN "schema_error_text_panics_on_unencodable_value"
